@@ -69,6 +69,12 @@ func init() {
 	for _, f := range c07CompactLists {
 		c07Paths = append(c07Paths, "jsonCompact:"+f[0])
 	}
+	// the value embedded in an addressing list, through gob; and in an array held by an item position, behind members
+	// that stand for nothing (null, a string that is no IRI, an empty object)
+	for _, f := range []string{"To", "CC", "Bto", "BCC", "Audience", "Tag"} {
+		c07Paths = append(c07Paths, "gobRecipient:"+f)
+	}
+	c07Paths = append(c07Paths, "jsonItemListAfterNothing:object", "jsonItemListAfterNothing:attachment", "jsonItemListAfterNothing:inReplyTo")
 	for _, f := range c07ObjectItemFields {
 		c07Paths = append(c07Paths, "jsonField:"+f[0], "gobField:"+f[0])
 	}
@@ -192,6 +198,40 @@ func c07Run(cell c07Cell) (goType string, idOK, markerOK bool, it ap.Item, pan s
 				}
 			case "field":
 			default:
+			}
+			if strings.HasPrefix(cell.Via, "gobRecipient:") {
+				field := cell.Via[len("gobRecipient:"):]
+				o := &ap.Object{ID: "https://example.com/outer", Type: ap.NoteType}
+				if v := mk(); v != nil {
+					reflect.ValueOf(o).Elem().FieldByName(field).Set(reflect.ValueOf(ap.ItemCollection{ap.IRI("https://example.com/first"), v}))
+					if b, err := ap.GobEncode(o); err == nil && len(b) > 0 {
+						outer, _ := ap.GobDecode(b)
+						if oo, ok := outer.(*ap.Object); ok {
+							if l, ok := reflect.ValueOf(oo).Elem().FieldByName(field).Interface().(ap.ItemCollection); ok && len(l) == 2 {
+								it = l[1]
+							}
+						}
+					}
+				}
+			}
+			if strings.HasPrefix(cell.Via, "jsonItemListAfterNothing:") {
+				term := cell.Via[len("jsonItemListAfterNothing:"):]
+				typ := "Note"
+				if term == "object" {
+					typ = "Create"
+				}
+				outer, _ := ap.UnmarshalJSON([]byte(`{"id":"https://example.com/outer","type":"` + typ + `","` + term + `":[null,"not an iri",{},` + doc + `,{"id":"https://example.com/second","type":"Note"}]}`))
+				if outer != nil {
+					if rv := reflect.ValueOf(outer); rv.Kind() == reflect.Ptr && rv.Elem().Kind() == reflect.Struct {
+						name := strings.ToUpper(term[:1]) + term[1:]
+						if v, ok := rv.Elem().FieldByName(name).Interface().(ap.Item); ok && v != nil {
+							_ = ap.OnItemCollection(v, func(col *ap.ItemCollection) error {
+								it = c07Pick(*col)
+								return nil
+							})
+						}
+					}
+				}
 			}
 			if strings.HasPrefix(cell.Via, "jsonCompact:") {
 				for _, f := range c07CompactLists {
